@@ -34,6 +34,12 @@ def run(ctx):
     behs += _retry.generate(ctx, "RetryGenP.cfg", ctx.pick(400, 4000), 0,
                             keep=lambda b: any(o["op"] == "park" for o in b["ops"]),
                             rank=lambda b: 2 * any(o["op"] == "unpark" and o["inline"] for o in b["ops"]) + min(len(b["scripts"]), 3) / 4.0)
+    # "retried only if throttling allows it" across RPCs: 2-4 RPCs one after the other on ONE channel with throttling
+    # configured (some exhausting maxAttempts); the token ledger is carried across the RPCs and every attempt the server
+    # sees is judged against it (I_WhenRetry_throttled)
+    behs += _retry.generate(ctx, "RetryGenL.cfg", ctx.pick(500, 6000), 0,
+                            keep=lambda b: any(o["op"] == "newrpc" for o in b["ops"]),
+                            rank=lambda b: sum(o["op"] == "newrpc" for o in b["ops"]) + min(len(b["scripts"]), 6) / 8.0)
     tpath = _retry.execute(ctx, behs, "c18")
     for b in behs:
         ctx.count(b, nontrivial=_retry.nontrivial(b))
